@@ -190,6 +190,7 @@ func c10MaxLen(t core.Tier) int {
 }
 
 const c10BoltCases = 16
+const c10ObjCases = 8
 
 func c10Plan(t core.Tier) (sent, mut, seq, rnd int) {
 	sent = 16 // sentences x suffixes split into 16 cases
@@ -210,16 +211,17 @@ func init() {
 			"(b) token-level mutations of them (delete, duplicate, swap, replace, truncate); (c) all token sequences of length <= 3 (quick) / 4 (thorough) over a 43-token alphabet; (d) random bytes and runes. " +
 			"Every input is parsed against an in-memory symbol table; a panic is a violation; every accepted query is evaluated on rows with all-null fields, empty sets, null set elements and mistyped map values (panic = violation). " +
 			"Rejection oracle: a sentence with one character that no lexer rule matches inserted at a token boundary, and a sentence truncated inside an open parenthesis/bracket/function call, is not a sentence and must be rejected. " +
+			"The sentence families are also run through Store.QueryIds on a populated and an empty bolt store (schema Q, with sort / skip / limit suffixes that page past the end) and through ObjectStore.QueryEntities on a populated and an empty in-memory object store (unknown and set-like names in predicates and sort clauses). " +
 			"A canary query with a known truth table is re-parsed between inputs (pooled lexer/parser state). non-trivial = distinct inputs that were accepted and evaluated, plus distinct rejected-by-construction inputs",
 		Assumptions: []string{"membership in the grammar is judged only for non-sentences by construction; termination is a per-worker watchdog (inconclusive when it fires)"},
 		Exhaustive:  func(core.Tier) bool { return true },
 		Plan: func(tier core.Tier, seed int64) int {
 			a, b, c, d := c10Plan(tier)
-			return a + b + c + d + c10BoltCases
+			return a + b + c + d + c10BoltCases + c10ObjCases
 		},
 		Run: runC10,
 		MinCounters: func(core.Tier) map[string]int64 {
-			return map[string]int64{"accepted_and_evaluated": 2000, "rejected": 2000, "junk_inserted": 1000, "bolt_queries_accepted": 1000, "bolt_queries_on_empty_store": 1000}
+			return map[string]int64{"accepted_and_evaluated": 2000, "rejected": 2000, "junk_inserted": 1000, "bolt_queries_accepted": 1000, "bolt_queries_on_empty_store": 1000, "object_store_queries_accepted": 500, "object_store_queries_on_empty_store": 500, "object_store_rejected": 500}
 		},
 	})
 }
@@ -326,6 +328,10 @@ func runC10(c *core.Ctx, idx int) {
 	tbl, rows := c10Table()
 	e := &c10Env{c: c, tbl: tbl, rows: rows}
 	nSent, nMut, nSeq, nRnd := c10Plan(c.Tier)
+	if idx >= nSent+nMut+nSeq+nRnd+c10BoltCases {
+		c10Obj(c, idx-(nSent+nMut+nSeq+nRnd+c10BoltCases))
+		return
+	}
 	if idx >= nSent+nMut+nSeq+nRnd {
 		c10Bolt(c, idx-(nSent+nMut+nSeq+nRnd))
 		return
@@ -469,6 +475,45 @@ func runC10(c *core.Ctx, idx int) {
 	_ = fmt.Sprint
 }
 
+// c10Obj: the sentence family over an in-memory object store (its own symbol table answers differently from a bolt
+// store: every name is "not a set", unknown names have no type), on a populated and an empty store.
+var c10ObjLhs = []string{"id", "s", "ism", "ibig", "flt", "b", "t", "grp", "owner", "zz", "tags", "meta.k", "anyOf(s)", "count(ism)", "anyOf(zz)", "count(from s where true)", "isEmpty(zz)"}
+
+func c10Obj(c *core.Ctx, part int) {
+	r := c.Rand()
+	full := newC19Store(qx.GenWorld(r, 12, false), r)
+	empty := newC19Store(qx.GenWorld(core.NewRand(1), 0, false), r)
+	sentences := c10SentencesFor(c10ObjLhs)
+	try := func(os interface {
+		QueryEntities(string) ([]*c19Obj, int64, error)
+	}, q, counter string) {
+		defer func() {
+			if rec := recover(); rec != nil {
+				st := string(debug.Stack())
+				c.Violationf("C10 panic in "+c10PanicSite(st)+" (ObjectStore.QueryEntities)", map[string]any{"query": q}, "query %q panicked: %v\n%s", q, rec, firstLines(st, 14))
+			}
+		}()
+		_, _, err := os.QueryEntities(q)
+		c.Eval()
+		if err == nil {
+			c.Count(counter, 1)
+		} else {
+			c.Count("object_store_rejected", 1)
+		}
+	}
+	for i := part; i < len(sentences); i += c10ObjCases {
+		for si, suf := range []string{"", " sort by s desc, ism", " sort by zz", " sort by s, zz desc", " sort by tags", " skip 1 limit 2", " sort by flt skip -1 limit none", " sort by s skip 100",
+			" sort by b, t desc, grp, owner, id, flt, ism", " limit 0", " sort by meta.k"} {
+			if si > 0 && (i+si)%3 != 0 {
+				continue
+			}
+			q := sentences[i] + suf
+			try(full, q, "object_store_queries_accepted")
+			try(empty, q, "object_store_queries_on_empty_store")
+		}
+	}
+}
+
 // c10Bolt: sentences with arbitrary operand type mixes over schema Q, run through Store.QueryIds on a populated
 // database (nulls, empty and absent sets, typed map values) and on an empty one.
 func c10Bolt(c *core.Ctx, part int) {
@@ -510,7 +555,8 @@ func c10Bolt(c *core.Ctx, part int) {
 		})
 	}
 	for i := part; i < len(sentences); i += c10BoltCases {
-		for si, suf := range []string{"", " sort by s desc, ism", " sort by tags", " sort by owner.name", " skip 1 limit 2", " sort by flt skip -1 limit none"} {
+		for si, suf := range []string{"", " sort by s desc, ism", " sort by tags", " sort by owner.name", " skip 1 limit 2", " sort by flt skip -1 limit none",
+			" sort by s skip 100", " sort by ism desc skip 13 limit 1", " sort by flt skip 1", " skip 100", " sort by id desc skip 50 limit 2", " sort by t limit 0"} {
 			if si > 0 && (i+si)%3 != 0 {
 				continue
 			}
